@@ -69,14 +69,18 @@ func (o op) String() string {
 
 // event is one whole block: 0..2 transactions and the block's time step.
 type event struct {
-	ops   []op
-	hours int // 0 = the default 17 s step; n > 0 = a step of n hours
+	ops    []op
+	hours  int   // 0 = the default 17 s step; n > 0 = a step of n hours
+	absent []int // validators that do not sign the previous block's commit (missed-votes mechanism)
 }
 
 func (e event) String() string {
 	var p []string
 	if e.hours > 0 {
 		p = append(p, fmt.Sprintf("+%dh", e.hours))
+	}
+	for _, a := range e.absent {
+		p = append(p, "absent("+actorName(a)+")")
 	}
 	for _, o := range e.ops {
 		p = append(p, o.String())
@@ -112,7 +116,8 @@ func seq(parts ...[]event) []event {
 // the non-initial state the search starts from, the alphabet and the depth bounds.
 type wdef struct {
 	name     string
-	nVals    int // validators staked at genesis (a fifth, unstaked candidate always exists)
+	nVals    int   // validators staked at genesis (a fifth, unstaked candidate always exists)
+	minVotes int64 // > 0: MinVotesRequired of the evidence options (window: 3 blocks); 0 = the harness default (nobody is ever frozen for missed votes)
 	votePct  int64
 	prefix   []event
 	alphabet []event
@@ -268,6 +273,26 @@ var worlds = []*wdef{
 		share: 0.6,
 	},
 	{
+		// the accused stops signing while the allegation against it is open: it is frozen for MISSED VOTES
+		// (another mechanism, releasable at once) and found GUILTY afterwards - the guilty freeze with its
+		// release time must win. (Added after a seeded change - "keep the record of a validator that is
+		// still frozen" - escaped the worlds in which everybody signs.)
+		name: "missed", nVals: 4, votePct: 50, minVotes: 2,
+		prefix: seq(quiet(4), []event{ev(alleg("A", v1, v3))}),
+		alphabet: []event{
+			ev(),
+			{absent: []int{v3}},
+			ev(vote("A", v1, true), vote("A", v2, true)),
+			{absent: []int{v3}, ops: []op{vote("A", v1, true)}},
+			ev(vote("A", v2, true)),
+			ev(release(v3)),
+			{hours: 25},
+			ev(unstake(v3, 100000)),
+		},
+		depth: map[string]int{"quick": 5, "thorough": 7},
+		share: 0.4,
+	},
+	{
 		// before any status record exists (they are first written by EndBlock(2))
 		name: "early", nVals: 4, votePct: 50,
 		prefix: nil,
@@ -318,5 +343,9 @@ func (wd *wdef) build() *harness.World {
 	w.Gov.EvidenceOptions.PenaltyBountyPercentage = 50
 	w.Gov.EvidenceOptions.PenaltyBountyDecimals = 100
 	w.Gov.EvidenceOptions.ValidatorReleaseTime = 1
+	if wd.minVotes > 0 {
+		w.Gov.EvidenceOptions.MinVotesRequired = wd.minVotes
+		w.Gov.EvidenceOptions.BlockVotesDiff = 3
+	}
 	return w
 }
